@@ -563,7 +563,7 @@ def crs_centre(ctx: Context, rule: str) -> None:
     fi = ctx.func('emsarray.transect.Transect._crs_for_point')
     flow = ctx.flow(fi)
     calls = [c for c in calls_in(fi) if (dotted(c.func) or '').endswith('AzimuthalEquidistant')]
-    pt = fi.params[1]
+    pt = [a for a in fi.params if a not in ('self', 'cls')][0]       # the point: the first parameter after self (a function or a method)
     ok = len(calls) == 1 and norm_text(flow.resolve(kwarg(calls[0], 'central_longitude') or ast.Constant(None))) == f"{pt}.x" \
         and norm_text(flow.resolve(kwarg(calls[0], 'central_latitude') or ast.Constant(None))) == f"{pt}.y" \
         and all(flow.resolve(r.value) is calls[0] for r in fi.returns())
